@@ -75,7 +75,7 @@ def run(rep):
              floor=3)
     rep.rule('R08.4', '_lookupAll polarity: most specific registration wins '
              'per name (same winner as lookup); _uncached_lookupAll: nearest '
-             'registry wins', floor=12)
+             'registry wins', floor=10)
     rep.rule('R08.5', 'C twin result handling: None -> default after the cache '
              'store; factory called with super proxies unwrapped', floor=3)
     rep.rule('R08.6', 'all nine entry points are delegated from the registry '
